@@ -31,11 +31,15 @@ K("c20_rt_integer_lits", "proto", ["C20", "C05"], tier="quick", timeout=900,
   encodes=["serialize_resp_frame", "parse_integer"], bounds="4 literals; unwind 8", stubs=FMT)
 for nm, ty, n, tier in (("simple", "+", 6, "quick"), ("error", "-", 6, "thorough"), ("null", "_", 6, "quick"), ("bool", "#", 6, "thorough"),
                         ("inline_p", "P", 6, "quick"), ("integer", ":", 6, "thorough"), ("bulk", "$", 7, "thorough")):
-    K("c20_prefix_" + nm, "proto", ["C20", "C05"], tier=tier, timeout=2400 if tier == "thorough" else 1800, mem_gb=28 if tier == "thorough" else None,  # the thorough instances peak close to the default 14 GB limit (went out of memory in some runs)
+    K("c20_prefix_" + nm, "proto", ["C20", "C05"], tier=tier, timeout=5400 if tier == "thorough" else 1800,  # c20_prefix_bulk: 2266 s / 19.5 GB measured mem_gb=28 if tier == "thorough" else None,  # the thorough instances peak close to the default 14 GB limit (went out of memory in some runs)
       desc="prefix lemma of the incremental parser for inputs starting with '%s': for every split point k, parse(prefix) frame => same frame and same remaining input from the whole; Err => Err; need-more => only whitespace consumed. Chunk independence follows by induction over chunks." % ty,
       encodes=["RespParser::parse", "parse_frame", "parse_line", "leaf parsers"],
       bounds="%d bytes, first concrete '%s', rest symbolic; all split points 1..%d enumerated concretely inside the harness; unwind 8" % (n, ty, n - 1),
       stubs=FMT + CUT)
+for nm, n in (("len0", 6),):   # len1 (7 bytes): CBMC out of memory at 14 GB - not registered; the 7-byte region is c20_prefix_bulk (thorough)
+    K("c20_prefix_blk_" + nm, "proto", ["C20", "C05"], tier="quick", timeout=1800,
+      desc="prefix lemma for bulk strings with a CONCRETE declared length ('$%s' + arbitrary bytes): every split point, in particular between the CR and the LF of the trailer: parse(prefix) frame => same frame from the whole, Err => Err, need-more otherwise" % nm[-1],
+      encodes=["RespParser::parse", "parse_frame", "parse_bulk_string", "parse_line"], bounds="%d bytes, the first two concrete, rest symbolic; all split points; unwind 8" % n, stubs=FMT + CUT)
 for nm, ty in (("inline_p", "P"), ("simple", "+")):
     K("c20_prefix_off_" + nm, "proto", ["C20", "C05"], tier="quick" if nm == "inline_p" else "thorough", timeout=1800 if nm == "inline_p" else 2400, mem_gb=None if nm == "inline_p" else 28,
       desc="prefix lemma with a READ OFFSET: two consumed bytes in front of the input (position = 2, not yet compacted), input starting with '%s', every split point: the parser must look only at buffer[position..]" % ty,
